@@ -390,6 +390,13 @@ def report(ctx, rn):
     elif rn.disagree:
         rn.disagree.sort(key=lambda x: (len(x[0]), x[0]))
         line, a, b = rn.disagree[0]
+        only_points = all(x.split(";")[:3] == y.split(";")[:3] for _, x, y in rn.disagree)
+        if only_points:
+            ctx.tie_broken("correspondence: return values and dup/close calls agree, but the implementation passes a different "
+                           "sequence of atomic actions (verif_hooks points) than the model on %d cases: the model no longer "
+                           "mirrors unixfd.rs step by step" % len(rn.disagree),
+                           "first (shortest) input: %s\nimpl : %s\nmodel: %s" % (line, a, b))
+            return
         ctx.tie_broken("correspondence: the model (exec over the same schedule) and the implementation disagree on "
                        "%d of the cases, and the property predicate does not fail on any output of the implementation"
                        % len(rn.disagree),
